@@ -399,7 +399,16 @@ def run_case(case: dict) -> dict:
             try:
                 data = read_json(p2)
                 sim2 = cls.from_dict(data)
-                sim2.atoms.calc = make_calc(case.get("calc", "pure"), committee=case["driver"] == "AdaptiveForceBias")
+                newcalc = make_calc(case.get("calc", "pure"), committee=case["driver"] == "AdaptiveForceBias")
+                if k % 2 == 1 and case.get("calc", "pure") == "pure":
+                    # "re-attaching the calculator" may hand back an object that was used before, on ANOTHER
+                    # configuration: its cached results must not leak into the continued run
+                    other = sim2.atoms.copy()
+                    other.rattle(0.3, seed=k)
+                    other.calc = newcalc
+                    other.get_potential_energy()
+                    other.get_forces()
+                sim2.atoms.calc = newcalc
             except Exception as e:  # noqa: BLE001
                 out["problems"].append({"k": k, "what": f"load:{type(e).__name__}", "message": str(e)[:300]})
                 continue
